@@ -41,9 +41,9 @@ THEOREMS = [(_P, t) for t in [
     # PianorollSequence
     'NSV.C06.roundtrip_Pianoroll', 'NSV.C06.roundtrip_Pianoroll_anyorder', 'NSV.C06.extract_canonical_Pianoroll',
     # Melody
-    'NSV.C06.roundtrip_Melody',
+    'NSV.C06.roundtrip_Melody', 'NSV.C06.extract_canonical_Melody',
     # LeadSheet
-    'NSV.C06.roundtrip_LeadSheet',
+    'NSV.C06.roundtrip_LeadSheet', 'NSV.C06.extract_canonical_LeadSheet',
 ]]
 
 NO_EVENT, NOTE_OFF = -2, -1
@@ -578,7 +578,43 @@ def gen_extracted(rng, kind, hist):
             c.update(S=a, ev=[[int(x) for x in e] for e in r])
     except (ml.PolyphonicMelodyError, cl.CoincidentChordsError, el.NonIntegerStepsPerBarError):
         return None
+    except Exception as e:  # pylint: disable=broad-except
+        # the real extractor raised something other than its documented errors on a valid quantized sequence:
+        # not a machinery error - "what extraction itself produces" does not exist for this input (reported by run())
+        UNEXPECTED.append({'kind': 'extract-crash', 'what': kind, 'error': '%s: %s' % (type(e).__name__, e),
+                           'source': nswire.encode(src), 'params': {k: v for k, v in c.items() if k not in ('ev', 'ch')}})
+        return None
     return c
+
+
+UNEXPECTED = []
+
+
+def replay_extract_crash(obj):
+    ml, dl, cl, ll, prl, sl, el, constants = _libs()
+    src, c, kind = nswire.decode(obj['source']), obj['params'], obj['what']
+    bad = None
+    for ss in sorted(set([c.get('ss', 0), 0, 1, 5] + [4 * c['spq'] * b for b in (1, 3)])):
+        for inst in (0, 1):
+            try:
+                if kind in ('melody', 'lead'):
+                    ml.Melody().from_quantized_sequence(src, search_start_step=ss, instrument=inst, gap_bars=c['gap'],
+                                                        ignore_polyphonic_notes=True, pad_end=c['pad'], filter_drums=True)
+                elif kind == 'drums':
+                    for ig in (False, True):
+                        dl.DrumTrack().from_quantized_sequence(src, search_start_step=ss, gap_bars=c['gap'],
+                                                               pad_end=c['pad'], ignore_is_drum=ig)
+                elif kind == 'chords':
+                    cl.ChordProgression().from_quantized_sequence(src, ss, ss + 4 * c['spq'])
+                else:
+                    for sr in (False, True):
+                        prl.PianorollSequence(quantized_sequence=src, start_step=min(ss, src.total_quantized_steps),
+                                              min_pitch=c['lo'], max_pitch=c['hi'], split_repeats=sr)
+            except (ml.PolyphonicMelodyError, cl.CoincidentChordsError, el.NonIntegerStepsPerBarError):
+                pass
+            except Exception as e:  # pylint: disable=broad-except
+                bad = '%s extraction raised %s: %s on a valid quantized sequence' % (kind, type(e).__name__, e)
+    return bad
 
 
 def spoil(rng, c, hist):
@@ -752,6 +788,10 @@ def run(chk):
             cases.append((c, hist))
         reqs, impls, models = run_cases(chk, kind, cases)
         chk.sample({'request': reqs[0][:140] + ' …', 'extracted': impls[0][2][:140], 'model_equal': impls[0][2] == models[0].split(' | ')[-1]})
+    for u in UNEXPECTED[:3]:
+        chk.fail('the real %s extractor raised %s on a valid quantized sequence (no canonical form exists for it)'
+                 % (u['what'], u['error']), u)
+    del UNEXPECTED[:]
     rng = chk.subrng('noncanonical')
     cases = []
     for i in range(chk.n(500, 6000)):
@@ -773,6 +813,10 @@ def replay(chk, obj):
     if str(obj.get('kind', '')).startswith('perf') and c06_perf is not None:
         return c06_perf.replay(chk, obj)
     _libs()
+    if obj.get('kind') == 'extract-crash':
+        r = replay_extract_crash(obj)
+        print('PROPERTY FAILS: %s' % r if r else 'property holds on this input')
+        return 1 if r else 0
     c = dict(obj)
     c.pop('differs', None)
     print('replay C06:', c['kind'], {k: v for k, v in c.items() if k not in ('ev', 'ch')}, '| %d events' % len(c['ev']))
